@@ -107,7 +107,25 @@ class Run:
         last = sp.split("::")[-1]
         decl = t.get("callee") or ""
         # iterators over concrete short vectors (consumed in order; adapters are lazy, so effects happen when items are pulled)
-        ITER = (("iter",), ("miter",), ("eiter",), ("fiter",))
+        ITER = (("iter",), ("miter",), ("eiter",), ("fiter",), ("citer",), ("ziter",))
+        # `zip(0.., xs)` / `xs.iter().zip(ys)`: a counter from a concrete start and concrete short sequences, pulled in step (the first operand first)
+        if last == "zip" and len(args) == 2 and "iter" in sp.lower():
+            ops = []
+            for a_ in args:
+                if isinstance(a_, tuple) and a_[:2] in (("variant", "RangeFrom"), ("variant", "Range")) and isinstance(a_[2][0], int) and not isinstance(a_[2][0], bool) \
+                        and (a_[1] == "RangeFrom" or (isinstance(a_[2][1], int) and not isinstance(a_[2][1], bool))):
+                    k = len(self.iters)
+                    self.iters[k] = [a_[2][1] if a_[1] == "Range" else None, a_[2][0]]
+                    ops.append(("citer", k))
+                elif isinstance(a_, tuple) and a_[:1] == ("vec",):
+                    ops.append(self.handler("core::iter::traits::collect::IntoIterator::into_iter", [a_], t))
+                elif isinstance(a_, tuple) and a_[:1] in ITER:
+                    ops.append(a_)
+                else:
+                    ops = None
+                    break
+            if ops is not None:
+                return ("ziter", ops[0], ops[1])
         if last in ("into_iter", "iter", "iter_mut") and len(args) == 1 and isinstance(args[0], tuple) and args[0][:1] == ("vec",):
             k = len(self.iters)
             self.iters[k] = [list(args[0][1]), 0]
@@ -151,10 +169,21 @@ class Run:
                     st[1] += 1
                     return some(st[0][st[1] - 1])
                 return NONE
+            if it[0] == "citer":
+                st = self.iters[it[1]]
+                if st[0] is not None and st[1] >= st[0]:
+                    return NONE
+                st[1] += 1
+                return some(st[1] - 1)
             nx = self.handler("core::iter::traits::iterator::Iterator::next", [it[1]], t)
             ov = absint.opt_view(nx)
             if not ov or ov[0] != "Some":
                 return NONE
+            if it[0] == "ziter":
+                ov2 = absint.opt_view(self.handler("core::iter::traits::iterator::Iterator::next", [it[2]], t))
+                if not ov2 or ov2[0] != "Some":
+                    return NONE
+                return some(("tuple", [ov[1], ov2[1]]))
             if it[0] == "eiter":
                 st = self.iters[it[2]]
                 st[1] += 1
